@@ -52,6 +52,9 @@ func TestChild(t *testing.T) {
 
 var listenerSecrets = [][]byte{
 	[]byte("testing123"),
+	// leading and trailing white space is part of the secret ("all secrets"): the configured bytes are
+	// the key, verbatim
+	[]byte(" s3cret with spaces\t\n"),
 	[]byte("s"),
 	[]byte("a-rather-long-shared-secret-that-is-longer-than-one-md5-block-of-64-bytes-0123456789"),
 	{0x00, 0xff, 0x80, 'b', 'i', 'n', 0x0a, 0x00},
